@@ -3364,6 +3364,65 @@ def c05_builder_group(mir, ctx):
     return [g]
 
 
+def c10_set_codepage_group(mir, ctx):
+    """PropertySet::set_codepage for every code page (symbolic discriminant) from a property set whose
+    cached code page is arbitrary: afterwards the cached code page -- the one strings are encoded
+    with on save -- is the one just set."""
+    src = open(os.path.join(REPO, "src/internal/codepage.rs")).read()
+    m = re.search(r"pub enum CodePage \{(.*?)\n\}", src, re.S)
+    variants = re.findall(r"^\s*(\w+),\s*$", m.group(1), re.M) if m else []
+    if len(variants) < 20:
+        raise EncodingError("could not read CodePage variants")
+    from .mir_protocol import struct_fields
+    psrc = open(os.path.join(REPO, "src/internal/propset.rs")).read()
+    pf = struct_fields(psrc, "PropertySet")
+    if "codepage" not in pf:
+        raise EncodingError("struct PropertySet has no field codepage")
+    fn = mir.find(r"propset::.*::set_codepage$")
+    d = ctx.fresh_int("codepage_discr", None, 0, len(variants) - 1)
+    models = [(r"BTreeMap::<u32, PropertyValue>::insert$", lambda ex, callee, args, pc, events: [(pc, events + [("insert",)], EnumV(variant=0, fields=[]))])]
+    ex = M.Exec(mir, ctx, models=models, havoc_unknown=True)
+    ex.enum_index = {v: i for i, v in enumerate(enum_variants(psrc, "PropertyValue"))}
+    ex.new_obj("ps", [OpaqueV("old-" + f) for f in pf])
+    outs = ex.run(fn, [M.ObjV("ps"), EnumV(discr=d)])
+    outs = outs + ex._pending_panics
+    ex._pending_panics = []
+    g = Group("set_codepage", ["propset::PropertySet::set_codepage", "propset::PropertySet::set", "codepage::CodePage::id", "codepage::CodePage::from_id"],
+              confirm=_c10_codepage_confirm,
+              note="for every one of the %d code pages: after set_codepage(cp) the property set's cached code page (used to encode every string on "
+                   "save) is cp, and the code-page property was stored; no panic" % len(variants))
+    n = 0
+    for k, o in enumerate(outs):
+        if o.kind == "panic":
+            g.queries.append(Query("panic_%d" % k, o.pc, "unsat", get={"codepage_discr": d.term}, note="set_codepage can panic: %s" % o.msg))
+            continue
+        if o.kind != "return":
+            continue
+        n += 1
+        got = o.heap["ps"][pf.index("codepage")]
+        if isinstance(got, EnumV) and got.variant in variants:
+            g.queries.append(Query("cached_%d" % k, o.pc + ["(not (= %s %d))" % (d.term, variants.index(got.variant))], "unsat", get={"codepage_discr": d.term},
+                                   note="after set_codepage the cached code page is %s although another one was set" % got.variant))
+        else:
+            g.queries.append(Query("stale_%d" % k, o.pc, "unsat", get={"codepage_discr": d.term},
+                                   note="set_codepage leaves the cached code page unchanged (strings are then saved in the previous code page under the new identifier)"))
+        if not any(e[0] == "insert" for e in o.events):
+            g.queries.append(Query("notstored_%d" % k, o.pc, "unsat", note="set_codepage does not store the code-page property"))
+        g.witness.append(Query("w_%d" % k, o.pc, "sat"))
+    if n < len(variants):
+        raise EncodingError("set_codepage: only %d returning paths for %d code pages" % (n, len(variants)))
+    return [g]
+
+
+def _c10_codepage_confirm(model, native):
+    out = native("native::protocol::replay_summary_codepages", {})
+    if not out.get("_ran"):
+        return None, "native replay did not run"
+    if out.get("_panicked"):
+        return True, "native summary code-page replay panicked: %s" % out.get("_panic_msg")
+    return (out.get("differs") == 1), (out.get("witness") or "summary strings survive every code-page switch natively")
+
+
 def c05_all(mir, ctx):
     return c05_update_group(mir, ctx) + c05_insert_group(mir, ctx) + c05_builder_group(mir, ctx)
 
@@ -3490,7 +3549,7 @@ def _proto(which):
 
 
 BUILDERS = {"C18": c18_groups, "C19": c19_groups, "C14": c14_groups, "C20": c20_all, "C09": c20_groups,
-            "C01": _proto({"mutators", "finish", "close"}), "C10": _proto({"mutators", "finish"}),
+            "C01": _proto({"mutators", "finish", "close"}), "C10": (lambda mir, ctx: _proto({"mutators", "finish"})(mir, ctx) + c10_set_codepage_group(mir, ctx)),
             "C15": _proto({"finish", "close"}), "C16": (lambda mir, ctx: _proto({"readonly"})(mir, ctx) + c16_loaded_pool_group(mir, ctx)), "C08": (lambda mir, ctx: c08_all(mir, ctx) + _proto({"finish"})(mir, ctx)), "C04": (lambda mir, ctx: _proto({"reject"})(mir, ctx) + c04_create_table_group(mir, ctx) + c05_update_group(mir, ctx) + c05_insert_group(mir, ctx)), "C11": c11_all, "C07": c07_insert_gate_group, "C12": c12_all, "C05": c05_all, "C13": c13_constructor_group, "C03": c03_all}
 
 
